@@ -2,11 +2,11 @@ SPECIFICATION Spec
 CONSTANTS
   Ids = {1, 2}
   Consumers = {1, 2}
-  Topics = {1}
-  MaxTime = 2
+  Topics = {1, 2}
+  MaxTime = 3
   Dues = {0, 2}
-  Exps = {0, 1}
-  ConsCfgs <- MCConsCfgsQuick
+  Exps = {0, 2}
+  ConsCfgs <- MCConsCfgs
 INVARIANT TypeOK
 INVARIANT Conservation
 INVARIANT OneHolder
